@@ -292,6 +292,22 @@ void mutate(World &W, Peer &p, Exchange &x, std::vector<Bytes> &pdus, const J &m
 			if (pdus[i].size() >= 12 && pdus[i][1] == PDU_EOD)
 				eod = (long)i;
 		pdus.insert(pdus.begin() + (eod >= 0 ? eod : (long)pdus.size()), wd);
+	} else if (k == "annwdkey") { // the same with a router key: a fresh one, or (reset answers) one the client holds already
+		if (rv >= 1) {
+			SpkiRec key = SpkiRec::make(4100000000u + (uint32_t)(m.geti("tag", 21) % 1000), 60 + (int)(m.geti("tag", 21) % 3), 70, p.si);
+			if (m.geti("old", 0) && x.qtype == 2 && !x.base_spki.empty()) {
+				auto it = x.base_spki.begin();
+				std::advance(it, (long)((uint64_t)m.geti("at") % x.base_spki.size()));
+				key = *it;
+			}
+			Bytes a = pdu_router_key(rv, key, 1), wd = pdu_router_key(rv, key, 0);
+			pdus.insert(pdus.begin() + (long)ins, a);
+			eod = -1;
+			for (size_t i = 0; i < pdus.size(); i++)
+				if (pdus[i].size() >= 12 && pdus[i][1] == PDU_EOD)
+					eod = (long)i;
+			pdus.insert(pdus.begin() + (eod >= 0 ? eod : (long)pdus.size()), wd);
+		}
 	} else if (k == "wdann") { // valid on a delta: withdraw a present record, later announce it again
 		if (x.qtype == 1 && !x.base_pfx.empty()) {
 			auto it = x.base_pfx.begin();
